@@ -215,7 +215,7 @@ def run(ctx):
     ctx.ob("R08.3", "child-ends-dropped-before-status-read", bool(ce_locals) and bool(reads) and all(dominated_by_blocks(os_start, r, drops, start=fm.parent_entry) for r in reads), os_start.loc(reads[0] if reads else 0),
            "the parent must drop its copies of the child ends before it waits on the status pipe (drops at %s)" % sorted(drops))
     # ---- R08.4 pipeline hand-over moves the read end -------------------------------------
-    pp = prog.one("builder::pipeline::Pipeline::popen")
+    pp = prog.one(pipeline_spawner(prog) or "builder::pipeline::Pipeline::popen")
     Tq = M.Terms(pp)
     sc = pp.calls_to(lambda f: M.callee_str(f) == "builder::exec::Exec::stdin")
     loops = M.sccs(pp)
@@ -241,3 +241,6 @@ def _flagged(fn, bb):
 def run_thorough(ctx):
     deep_census(ctx, "R08.2", ["pipe", "pipe2", "socketpair"], {"pipe": ["posix::pipe"]})
     deep_census(ctx, "R08.1", ["fcntl"], {"fcntl": ["posix::fcntl", "std::os::fd::BorrowedFd::<'_>::try_clone_to_owned", "std::sys::fs::unix::debug_assert_fd_is_open", "std::sys::fs::unix::debug_path_fd::get_mode"]})
+    # the cfg(windows) sibling of set_inheritable
+    import winrules
+    winrules.c08_set_inheritable(ctx)
